@@ -40,7 +40,11 @@ pub(crate) fn run() -> Result<(), Error> {
 
     let mut ps = ProcessState::init(env)?;
     let env2 = ps.env().clone();
-    let mut ptx = ProcessTransaction::new(&mut ps, TransactionBehavior::Deferred)?;
+    // The dirtiness walk may write (a generated file that has gone missing is
+    // forgotten as a target); the transaction is rolled back at the end, but a
+    // deferred transaction that writes after reading fails at once with
+    // SQLITE_BUSY when another command has committed meanwhile.
+    let mut ptx = ProcessTransaction::new(&mut ps, TransactionBehavior::Immediate)?;
     let cache: RefCell<HashSet<i64>> = RefCell::new(HashSet::new());
     let mut cb = DirtyCallbacksBuilder::new()
         .is_checked(|f, _| cache.borrow().contains(&f.id()))
